@@ -53,6 +53,35 @@ fn main() {
         std::fs::write(&args[4], serde_json::to_string_pretty(&small).unwrap()).expect("write");
         return;
     }
+    if prop == "probe-plant" {
+        // pxe2e probe-plant <rule index> <raw modulus> <raw residue> <count>: debugging aid, prints the compiler's verdict on planted applications of one rule
+        let rule: usize = args[2].parse().expect("rule");
+        let (m, r): (u16, u16) = (args[3].parse().expect("mod"), args[4].parse().expect("res"));
+        let count: usize = args[5].parse().expect("count");
+        let settings = Settings::from_env_and_args("C08", &[]);
+        let chk = Check::new(settings, "");
+        let bases = draw_abiding(&chk, "planted", count * 6);
+        let lane = lane(&std::env::var("PX_LANE").unwrap_or_else(|_| "manual".into()));
+        let mut done = 0;
+        for (bi, b) in bases.iter().enumerate() {
+            let raw = (((vcommon::fnv(&format!("probe-{bi}")) >> 7) & 0xffff) as u16) / m * m + r;
+            if let Some(p) = genr::plant(b, rule, raw) {
+                if let Ok(dir) = std::env::var("PX_DUMP") {
+                    let _ = std::fs::create_dir_all(&dir);
+                    let _ = std::fs::write(format!("{dir}/planted-{done}.json"), serde_json::to_string_pretty(&p.spec).unwrap());
+                }
+                match round::verdict_alone(&lane, &p.spec) {
+                    Ok(v) => println!("{} => {}", p.what, v.signature()),
+                    Err(e) => println!("{} => infrastructure: {}", p.what, e.chars().take(600).collect::<String>()),
+                }
+                done += 1;
+                if done >= count {
+                    break;
+                }
+            }
+        }
+        return;
+    }
     let settings = Settings::from_env_and_args(&prop, &args[2..]);
     let chk = Check::new(settings, "");
     match prop.as_str() {
@@ -584,7 +613,7 @@ fn evaluate_round(chk: &mut Check, prop: &str, specs: &[AppSpec], out: &RoundOut
             match res {
                 Ok(labels) => {
                     let nontrivial = match prop {
-                        "C05" => labels.iter().any(|l| l.starts_with("shape:") || l.starts_with("plan:")),
+                        "C05" => labels.iter().any(|l| l.starts_with("shape:wrap") || l.starts_with("shape:>=11") || l.starts_with("plan:")),
                         "C03" => labels.iter().any(|l| l.starts_with("request-scoped:shared") || l.starts_with("transient:>=2")) || failing,
                         "C04" => labels.iter().any(|l| l == "ctor-resolution:override" || l == "clone-observed"),
                         _ => labels.iter().any(|l| l == "failed:shared-constructor" || l == "failure-inside-wrapped-pipeline" || l == "observers>=2"),
@@ -1206,6 +1235,55 @@ fn chaos_of(base: &AppSpec, seed: u64) -> AppSpec {
                 }
                 notes.push("generic constructors instantiated with arbitrary types".into());
             }
+        }
+        7 if next() % 2 == 0 => {
+            // a dependency cycle that only an error observer can reach (two fresh values, at least one of them
+            // transient, that need each other), next to an infallible handler that needs a fallible constructor
+            let mk = |life: Life, inputs: Vec<(usize, Mode)>, fallible: Option<usize>| TypeSpec {
+                life,
+                is_clone: false,
+                is_copy: false,
+                clone_if_necessary: None,
+                inputs,
+                fallible,
+                is_async: false,
+                variants: 1,
+                send_sync: true,
+                prebuilt: false,
+                attr_life: None,
+                attr_clone: None,
+                allow_unused: false,
+                v1_flip: false,
+                view_of: None,
+            };
+            let a = spec.types.len();
+            let (la, lb) = [(Life::Transient, Life::Transient), (Life::Transient, Life::Request), (Life::Request, Life::Transient)][next() % 3];
+            spec.types.push(mk(la, vec![(a + 1, Mode::Ref)], None));
+            spec.types.push(mk(lb, vec![(a, if next() % 2 == 0 { Mode::Ref } else { Mode::Move })], None));
+            if spec.n_errs == 0 {
+                spec.n_errs = 1;
+            }
+            spec.types.push(mk(Life::Request, vec![], Some(0)));
+            for t in a..a + 3 {
+                spec.bp.insert(0, Reg::Ctor { ty: t, variant: 0 });
+            }
+            let obs = spec.comps.len();
+            spec.comps.push(CompSpec { kind: CompKind::Observer, inputs: vec![(a, Mode::Ref)], fallible: None, is_async: false, route: None, fw: vec![], gens: vec![] });
+            // (registered before every route)
+            let first_route = spec.bp.iter().position(|r| !matches!(r, Reg::Ctor { .. })).unwrap_or(spec.bp.len());
+            spec.bp.insert(first_route, Reg::Comp { idx: obs });
+            let h = spec.comps.len();
+            spec.comps.push(CompSpec {
+                kind: CompKind::Handler,
+                inputs: vec![(a + 2, Mode::Ref)],
+                fallible: None,
+                is_async: false,
+                route: Some(RouteSpec { methods: vec!["GET".into()], path: "/odd7".into(), path_param_fields: vec![], bulk: false }),
+                fw: vec![],
+                gens: vec![],
+            });
+            spec.bp.push(Reg::Comp { idx: h });
+            notes.push(format!("T{a} and T{} need each other, only error observer x{obs} asks for T{a}; the infallible handler x{h} needs the fallible T{}", a + 1, a + 2));
         }
         7 => {
             // two request-time values that need each other by reference, one of them borrowed by an error observer
